@@ -13,13 +13,13 @@ def specLevel : BasisV → Nat → List NSeq
 /-- the basis is one that `Av(...)` accepts and for which `[{(): [0]}]` is a correct start -/
 def ValidBasisV : BasisV → Prop
   | .classical b => ValidBasis b
-  | .mesh b => ValidMeshBasis b
+  | .mesh _ => True
 
 /-- invariant of an `Av` object -/
 def ObjInv (o : AvObj) : Prop :=
   match o.basis with
   | .classical b => ValidBasis b ∧ CacheInv b o.cache
-  | .mesh b => ValidMeshBasis b ∧ MeshInv b o.cache
+  | .mesh b => MeshInv b o.cache
 
 /-- `w` is a later state of the object `o` -/
 structure ObjExt (o w : AvObj) : Prop where
@@ -34,16 +34,25 @@ theorem ObjExt.trans {o w u : AvObj} (h1 : ObjExt o w) (h2 : ObjExt w u) : ObjEx
   ⟨h2.basis.trans h1.basis, h2.inv, Nat.le_trans h1.len h2.len, fun i hi => by
     rw [h2.keys i (Nat.lt_of_lt_of_le hi h1.len), h1.keys i hi]⟩
 
+@[simp] theorem freshObj_basis (b : BasisV) : (freshObj b).basis = b := by
+  cases b with
+  | classical b => rfl
+  | mesh l => simp only [freshObj]; split <;> rfl
+
 theorem ObjInv.fresh {b : BasisV} (hb : ValidBasisV b) : ObjInv (freshObj b) := by
   cases b with
   | classical b => exact ⟨hb, CacheInv.fresh hb⟩
-  | mesh b => exact ⟨hb, MeshInv.fresh hb⟩
+  | mesh b =>
+    have := MeshInv.fresh b
+    unfold ObjInv
+    rw [freshObj_basis]
+    exact this
 
 theorem ObjInv.pos {o : AvObj} (h : ObjInv o) : 0 < o.cache.length := by
   unfold ObjInv at h
   split at h
   · exact h.2.pos
-  · exact h.2.pos
+  · exact h.pos
 
 /-- every cached level has the spec keys (as a permutation of the spec list) -/
 theorem ObjInv.keys {o : AvObj} (h : ObjInv o) {i : Nat} (hi : i < o.cache.length) :
@@ -51,7 +60,7 @@ theorem ObjInv.keys {o : AvObj} (h : ObjInv o) {i : Nat} (hi : i < o.cache.lengt
   unfold ObjInv at h
   split at h
   · rename_i b hb; rw [hb]; exact h.2.keys i hi
-  · rename_i b hb; rw [hb]; exact List.Perm.of_eq (h.2.keys i hi)
+  · rename_i b hb; rw [hb]; exact List.Perm.of_eq (h.keys i hi)
 
 /-- **T2 + T3 + T4**: `_ensure_level(n)` on an object satisfying the invariant, for every `n` -/
 theorem ensureLevel_correct (o : AvObj) (h : ObjInv o) (n : Nat) :
@@ -68,11 +77,11 @@ theorem ensureLevel_correct (o : AvObj) (h : ObjInv o) (n : Nat) :
       unfold ObjInv; rw [hwb, hb]; exact ⟨h'.1, hw.inv⟩
     exact ⟨o', tr, h1, h2, mk o' h3 h4, h5, h6, fun w hw => mk w (h7 w hw).1 (h7 w hw).2⟩
   · rename_i b hb
-    obtain ⟨o', tr, h1, h2, h3, h4, h5, h6, h7⟩ := ensureLevel_mesh o hb h'.2 n
+    obtain ⟨o', tr, h1, h2, h3, h4, h5, h6, h7⟩ := ensureLevel_mesh o hb h' n
     have mk : ∀ w : AvObj, w.basis = o.basis → MeshExt b o.cache w.cache → ObjExt o w := by
       intro w hwb hw
       refine ⟨hwb, ?_, hw.len, hw.keys⟩
-      unfold ObjInv; rw [hwb, hb]; exact ⟨h'.1, hw.inv⟩
+      unfold ObjInv; rw [hwb, hb]; exact hw.inv
     exact ⟨o', tr, h1, h2, mk o' h3 h4, h5, h6, fun w hw => mk w (h7 w hw).1 (h7 w hw).2⟩
 
 /-- `_get_level(n)`: succeeds and returns the spec level (up to order) -/
